@@ -103,6 +103,8 @@ def script_of(path):
     cfg = {"N": r["N"], "C": r.get("Csec", r["C"]), "unit": r.get("unit", 1), "phase": r.get("phase", 0)}
     if r.get("default"):
         cfg = {"default": True, "unit": r.get("unit", 1), "phase": r.get("phase", 0)}
+    if r.get("level", "unit") != "unit":
+        cfg["level"] = r["level"]
     evs = []
     for e in path[1:]:
         s = {"ev": e["ev"]}
@@ -110,17 +112,20 @@ def script_of(path):
             s["d"] = e["d"]
         if e["ev"] == "call":
             s.update(read=e["read"], out=e["out"], kind=e.get("kind", ""))
+        if e["ev"] == "req":
+            s.update(dest=e["dest"], attempts=[a for a in e["attempts"].split("/") if a], provider=e["provider"], final=e["final"],
+                     errname=e.get("errname", "x-lunar-error"))
         evs.append(s)
     return {"config": cfg, "events": evs}
 
 
-def validate_tree(ctx, trace_path, tag, workers=4, heap=None):
+def validate_tree(ctx, trace_path, tag, workers=4, heap=None, module="FailSafeTrace"):
     """TLC walks the recorded tree with FailSafeTrace.  Returns (rejected node ids, nodes visited, lines)."""
     wd = workdir(ctx, tag)
     dst = os.path.join(wd, "trace.ndjson")
     if os.path.abspath(trace_path) != dst:
         shutil.copy(trace_path, dst)
-    r = ctx.tlc(wd, "FailSafeTrace", "FailSafeTrace.cfg", workers=workers, timeout=1500, count=False, heap=heap)
+    r = ctx.tlc(wd, module, module + ".cfg", workers=workers, timeout=1500, count=False, heap=heap)
     if not r.ok:
         raise Broken("tree validation %s failed to run: %r\n%s" % (tag, r, r.out[-2500:]))
     import re
@@ -145,6 +150,11 @@ def leaf_stats(nodes):
         n = nodes[nid - 1]
         if n["ev"] == "reset":
             ph = 0
+        elif n["ev"] == "req" and n["dest"] == "pub":
+            if n["gw"] == 0 and ph == 0:
+                ph = 1
+            elif n["gw"] > 0 and ph == 1:
+                ph = 2
         elif n["ev"] == "ask" or (n["ev"] == "call" and n["read"]):
             if not n["ans"] and ph == 0:
                 ph = 1
@@ -166,14 +176,24 @@ def witness_failsafe(path):
     w = {"class": "failsafe-observation-not-permitted", "N": path[0]["N"], "C": path[0]["C"], "at": len(path) - 1, "now": now,
          "gateway_failures_before": fails - (bad["ev"] == "call" and bad["out"] == "gwerr"),
          "event": {k: bad[k] for k in ("ev", "d", "read", "out", "kind", "ans", "raised") if k in bad}}
+    if bad["ev"] == "req":
+        w["class"] = "hook-observation-not-permitted"
+        w["event"] = {k: bad[k] for k in ("ev", "dest", "attempts", "final", "provider", "gw", "prov", "via", "araised", "errname") if k in bad}
+        served = (bad["dest"] == "pub" or bad["gw"] == 0)
+        if bad["gw"] > 0 and bad["final"] == "gwerr" and not (bad["via"] == "direct" or bad["araised"] == "provider"):
+            w["class"] = "hook-failed-gateway-leg-not-covered-by-direct-call"
+        elif bad["provider"] == "raise" and bad["araised"] != "provider" and (bad["gw"] == 0 or bad["final"] == "gwerr"):
+            w["class"] = "hook-provider-error-not-delivered"
+        elif not served:
+            w["class"] = "hook-excluded-destination-routed"
     if bad["ev"] == "call" and bad["out"] == "appexc" and bad["raised"] != "same" and (bad["ans"] or not bad["read"]):
         w["class"] = "application-exception-not-propagated"
     return w
 
 
-def judge_tree(ctx, trace_path, tag, workers=4, heap=None, max_report=3):
+def judge_tree(ctx, trace_path, tag, workers=4, heap=None, max_report=3, module="FailSafeTrace"):
     """validate; reproduce each (of the first few, shortest) rejection by re-executing its history alone; report."""
-    rej, visited, lines = validate_tree(ctx, trace_path, tag, workers, heap)
+    rej, visited, lines = validate_tree(ctx, trace_path, tag, workers, heap, module)
     nodes = None
     if rej:
         nodes, parent = load_tree(trace_path)
@@ -189,10 +209,10 @@ def judge_tree(ctx, trace_path, tag, workers=4, heap=None, max_report=3):
             d = ctx.sub("repro-" + tag)
             json.dump([sc], open(os.path.join(d, "s.json"), "w"))
             run_exec(ctx, ["scripts", os.path.join(d, "s.json"), os.path.join(d, "t.ndjson")])
-            r2, _, _ = validate_tree(ctx, os.path.join(d, "t.ndjson"), "repro-" + tag, workers=1)
+            r2, _, _ = validate_tree(ctx, os.path.join(d, "t.ndjson"), "repro-" + tag, workers=1, module=module)
             if not r2:
                 raise Broken("rejection not reproduced (%s): %s" % (tag, json.dumps(w)))
-            ctx.violation(w, {"kind": "failsafe", "script": sc, "recorded": p, "rejected_nodes_in_run": len(rej)})
+            ctx.violation(w, {"kind": "failsafe", "module": module, "script": sc, "recorded": p, "rejected_nodes_in_run": len(rej)})
     return rej, visited, lines
 
 
@@ -471,6 +491,96 @@ def part_coverage(ctx):
             ctx.cov["traces_validated_against_impl"] += n
 
 
+def req(dest, attempts, provider="ok"):
+    final = "ok"
+    for a in attempts:
+        if a in ("err", "raise"):
+            final = "gwerr"
+            break
+        if a == "appexc":
+            final = "appexc"
+            break
+        if a == "ok":
+            break
+    return {"ev": "req", "dest": dest, "attempts": list(attempts), "provider": provider, "final": final}
+
+
+HOOK_ALPHABET = [{"ev": "ask"}, {"ev": "adv", "d": 1},
+                 req("pub", ["ok"]), req("pub", ["err"]), req("pub", ["raise"], "raise"),
+                 req("pub", ["retry", "ok"]), req("pub", ["retry", "err"]), req("pub", ["appexc"]),
+                 req("pub", ["ok"], "raise"), req("excl", [], "ok"), req("excl", [], "raise"), req("int", [], "raise")]
+
+
+def rand_hook_script(rng, thorough):
+    n, c = rng.choice([1, 2, 2, 3, 4]), rng.choice([1, 2, 3, 5])
+    unit = rng.choice([1, 8])
+    cfg = {"N": n, "C": c, "unit": unit, "phase": rng.randrange(unit), "level": "hook"}
+    c *= unit
+    evs, mood = [], "fail"
+    for _ in range(rng.randint(25, 50 if not thorough else 80)):
+        if rng.random() < 0.15:
+            mood = rng.choice(["fail", "fail", "ok", "mixed", "wait"])
+        x = rng.random()
+        if mood == "wait" or x < 0.2:
+            evs.append({"ev": "adv", "d": rng.choice([1, max(1, c - 1), c, c, c + 1, 2 * c, max(1, unit // 2)])})
+            if mood == "wait" and rng.random() < 0.5:
+                mood = "mixed"
+        elif x < 0.27:
+            evs.append({"ev": "ask"})
+        else:
+            prov = "raise" if rng.random() < 0.25 else "ok"
+            if rng.random() < 0.2:
+                evs.append(req(rng.choice(["excl", "int"]), [], prov))
+                continue
+            pre = ["retry"] * rng.choice([0, 0, 0, 1, 1, 2])
+            last = {"fail": rng.choice(["err", "err", "raise", "raise", "ok", "appexc"]), "ok": rng.choice(["ok", "ok", "ok", "err"]),
+                    "mixed": rng.choice(["ok", "err", "raise", "appexc"]), "wait": "ok"}[mood]
+            e = req("pub", pre + [last], prov)
+            if last == "err":
+                e["errname"] = rng.choice(["x-lunar-error", "X-Lunar-Error", "X-LUNAR-ERROR"])
+            evs.append(e)
+    return {"config": cfg, "events": evs}
+
+
+def part_hooks(ctx):
+    """the property at the level of hooks/requests.py: the real RequestsHook + FailSafe + TrafficFilter over a scripted transport
+    (gateway attempts: ok / error response / retry sequence / connection error / foreign exception; provider: ok / raises),
+    every request sequence up to a depth and seeded random histories, judged by FailSafeHookTrace."""
+    T = ctx.thorough
+    small = [dict(c, level="hook") for c in CONFIGS if c["N"] <= 2 and c["C"] <= 2]
+    d = ctx.sub("hooks")
+    core = [HOOK_ALPHABET[i] for i in (0, 1, 2, 3, 4, 6, 7, 10)]
+    specs = [("all3", {"configs": small, "depth": 3 if not T else 4, "alphabet": HOOK_ALPHABET}),
+             ("core4", {"configs": small[:2] if not T else small, "depth": 4 if not T else 5, "alphabet": core})]
+    for tag, spec in specs:
+        json.dump(spec, open(os.path.join(d, "spec.json"), "w"))
+        s = run_exec(ctx, ["tree", os.path.join(d, "spec.json"), os.path.join(d, "tree.ndjson")])
+        if s.get("nondeterministic"):
+            raise Broken("hook level: re-execution of a prefix gave a different observation: %s" % s)
+        rej, _, lines = judge_tree(ctx, os.path.join(d, "tree.ndjson"), "hooktree-" + tag, workers=3, module="FailSafeHookTrace")
+        nodes = read_ndjson(os.path.join(d, "tree.ndjson"))
+        leaves, nontriv = leaf_stats(nodes)
+        ctx.log("hook level tree %s: %d nodes, %d request histories (%d open+recover), %d executions, %d rejected nodes" % (
+            tag, lines, leaves, nontriv, s["executions"], len(rej)))
+        ctx.cov["evaluations"] += s["executions"]
+        if not rej:
+            ctx.cov["traces_validated_against_impl"] += leaves
+            ctx.cov["distinct_nontrivial"] += nontriv
+        os.remove(os.path.join(d, "tree.ndjson"))
+    rs = [rand_hook_script(ctx.rng, T) for _ in range(150 if not T else 2000)]
+    json.dump(rs, open(os.path.join(d, "rand.json"), "w"))
+    s2 = run_exec(ctx, ["scripts", os.path.join(d, "rand.json"), os.path.join(d, "rand.ndjson")])
+    rej, _, lines = judge_tree(ctx, os.path.join(d, "rand.ndjson"), "hookrand", workers=2, module="FailSafeHookTrace")
+    nodes = read_ndjson(os.path.join(d, "rand.ndjson"))
+    leaves, nontriv = leaf_stats(nodes)
+    ctx.log("hook level: %d random request histories (%d events), %d with open+recover, %d rejected nodes" % (len(rs), s2["executions"], nontriv, len(rej)))
+    ctx.cov["evaluations"] += s2["executions"]
+    ctx.sample({"kind": "hook-request", "node": {k: v for k, v in next(n for n in nodes if n["ev"] == "req" and n["gw"] > 1).items() if k != "k"}}, limit=4)
+    if not rej:
+        ctx.cov["traces_validated_against_impl"] += leaves
+        ctx.cov["distinct_nontrivial"] += nontriv
+
+
 def judge_filter(ctx, trace_path, tag):
     wd = workdir(ctx, "filter-" + tag)
     shutil.copy(trace_path, os.path.join(wd, "trace.ndjson"))
@@ -646,6 +756,7 @@ def run(ctx):
     space = part_model(ctx)
     part_trees(ctx)
     part_coverage(ctx)
+    part_hooks(ctx)
     rand_trace = part_walks(ctx)
     filter_trace = part_filter(ctx, space)
     if T:
@@ -661,7 +772,7 @@ def replay(ctx, path):
         run_exec(ctx, ["scripts", os.path.join(d, "s.json"), os.path.join(d, "t.ndjson")])
         for n in read_ndjson(os.path.join(d, "t.ndjson"))[1:]:
             print(json.dumps({k: v for k, v in n.items() if k != "k"}))
-        rej, _, _ = validate_tree(ctx, os.path.join(d, "t.ndjson"), "replay", workers=1)
+        rej, _, _ = validate_tree(ctx, os.path.join(d, "t.ndjson"), "replay", workers=1, module=rp.get("module", "FailSafeTrace"))
         if rej:
             print("VIOLATION property=C19 replay=%s" % path)
             print("   observation at event %d is not permitted by FailSafeRel" % (rej[0] - 2))
